@@ -84,6 +84,7 @@ void run_file(Ctx &c, const sim::Op &op) {
     }
     s.chunk = (size_t)p.get("chunk", 0);
     s.unbuffered = p.get("unbuffered", 0) != 0;
+    s.eager_eof = p.get("eager_eof", 0) != 0;
     simfile::set_read_script(s);
     bool with_hint = op.a != 0;
     size_t hint = (size_t)op.b;
@@ -565,6 +566,8 @@ void gen(uint64_t seed, int tier, sim::Plan &p) {
             p.cfg["fault_errno"] = r.pick(std::vector<int64_t>{EIO, EINTR, ENOSPC, EAGAIN, EWOULDBLOCK, ESTALE});
             if (r.chance(0.4)) p.cfg["fault_offset"] = r.pick(std::vector<int64_t>{op.b, op.b + 1, 2 * (op.b + 1), 4096, 8192, L > 1 ? L / 2 : 0});
         }
+        // a stdio whose fread reports end-of-file together with the last bytes (fault-free plans only: the look-ahead must not trip a scripted error)
+        if (fault == 0 && !big_file && r.chance(0.3)) p.cfg["eager_eof"] = 1;
         p.ops.push_back(op);
     } else {
         int n = (int)r.range(3, 40);
@@ -640,7 +643,7 @@ extern const Harness H_C01 = {
     "C01", "byte buffers against their environment (file -> buffer under I/O faults; growth and secure release against an allocator)", gen, run, op_text,
     "Two kinds of plans. (0) file -> buffer: aws_byte_buf_init_from_file[_with_size_hint] on a simulated file: content length from "
     "{0,1,31,32,33,4095,4096,4097,8192,10000,random}, size reported by fstat equal / 0 / 4096 / larger / smaller than the content, size hints "
-    "around the length, read chunking and stdio buffering, at most one of fopen error, fstat error, fileno failure, read error at an offset; "
+    "around the length, read chunking and stdio buffering, a stdio whose fread reports end-of-file together with the last bytes (30% of the fault-free plans), at most one of fopen error, fstat error, fileno failure, read error at an offset; "
     "simulated allocator (moves or not on realloc, with or without mem_realloc, junk fill). (1) growth (15% with a second thread growing a buffer of its own, interleaved at the allocator calls): 3-40 operations of init, init_copy, init_cache_and_update_cursors (0-40 cursors), "
     "init_copy_from_cursor, append_dynamic[_secure] incl. self-append, append_byte_dynamic[_secure], append, reserve, reserve_relative, "
     "reserve_smart[_relative] incl. len+additional overflow, cat, reset, secure_zero, clean_up[_secure], checked against a byte-vector "
